@@ -69,6 +69,7 @@ CallVerdict(o) ==
       [] o.kind = "cmprow2" -> RowVerdictOf(Mat2, o.i)
       [] o.kind = "sort" ->
            IF o.raised # "" THEN "sort_raises"
+           ELSE IF o.after # o.xs THEN "sort_operand_changed"
            ELSE IF ~IsPerm(o.xs, o.out) THEN "sort_not_a_permutation"
            ELSE IF \E k \in 1..Len(o.adj) : o.adj[k] \notin {-1, 0} THEN "sort_not_nondecreasing"
            ELSE IF \E k \in 1..Len(o.far) : o.far[k][3] \notin {-1, 0} THEN "sort_not_nondecreasing_far"
@@ -95,7 +96,8 @@ AsCall(S, st, ob) ==
                                           colcmp |-> ob.colcmp, again |-> ob.again, after |-> ob.tabs[st.src]]
       [] st.op = "sortval"  -> [kind |-> "dsortval", rows |-> S.tabs[st.src], orders |-> OrdersAt(S, st), raised |-> ob.raised, out |-> ob.out,
                                 after |-> ob.tabs[st.src]]
-      [] st.op = "listsort" -> [kind |-> "sort", xs |-> S.lsts[st.lst], raised |-> ob.raised, out |-> ob.out, adj |-> ob.adj, far |-> ob.far]
+      [] st.op = "listsort" -> [kind |-> "sort", xs |-> S.lsts[st.lst], raised |-> ob.raised, out |-> ob.out, adj |-> ob.adj, far |-> ob.far,
+                                after |-> ob.lsts[st.lst]]
 \* the heap after the step: a call allocates what it returned (judged lawful before), an edit is the caller's own action
 Tracked(S, st, ob) == IF st.op = "listsort" THEN NewList(S, ob.out)
                       ELSE IF IsCall(st) THEN NewTable(S, ob.out)
